@@ -110,6 +110,21 @@ def run(chk):
         (f"{qt2} in (qint2, qint4)", [(f"{qt2} in (qint2, qint4)", True), (f"{qt2} in [qint2, qint4]", True), (f"{qt2} in (qint4, qint2)", True)], None, "AffineQuantizer.apply(t, qint8, ...): an 8-bit qtype is packed as if it were low-bit"),
         (f"{ax2} in (0, -1)", [(f"{ax2} in (0, -1)", True), (f"{ax2} in [0, -1]", True)], None, "AffineQuantizer.apply(t, qint4, axis=1, ...)"),
     ])
+    # the scale / zero-point handed to the affine quantizer match the per-axis request (one value per index of the axis of the - grouped - base)
+    sc2, zp2 = ps_[5], ps_[6]
+    Bs = (base, f"group({base}, axis={ax2}, group_size={gs2})")
+    rank1 = [(f"{B}.ndim > 1", False) for B in Bs]  # a rank-1 base takes another route (judged on its own below)
+    check_guards(chk, ci.mod, fwd, "AffineQuantizer.forward", [
+        ("per-axis => scale has the rank of the base", [(f"{sc2}.ndim == {B}.ndim", True) for B in Bs] + rank1, None, "AffineQuantizer.apply(randn(4, 8), qint4, 0, None, scale of shape (4,), zeropoint): accepted, mislabelled"),
+        ("per-axis => scale extent matches the axis", [(f"{sc2}.shape[{ax2}] == {B}.shape[{ax2}]", True) for B in Bs] + rank1, None, "AffineQuantizer.apply(randn(4, 8), qint4, 0, None, scale of shape (1, 8), zeropoint): accepted as a per-axis(0) tensor with its scale along the other axis"),
+        ("per-axis => single-axis scale", [(f"{sc2}.numel() == {B}.shape[{ax2}]", True) for B in Bs] + rank1, None, "AffineQuantizer.apply(randn(4, 8), qint4, 0, None, scale of shape (4, 8), zeropoint): one scale per element accepted"),
+        ("zeropoint shaped like the scale", [(f"{zp2}.shape == {sc2}.shape", True)] + rank1, None, "AffineQuantizer.apply(t, qint4, 0, None, scale (4, 1), zeropoint (1, 8)): accepted"),
+    ])
+    for B in Bs[:1]:
+        check_guards(chk, ci.mod, fwd, "AffineQuantizer.forward", [
+            ("rank-1 base: per-axis request rejected or honoured with one scale per element", [("1D rejected", True)], [(f"{B}.ndim > 1", False)],
+             "quantize_weight(randn(6), qint4, axis=0): a single scale for the six elements, returned as a QBitsTensor(axis=0) (the symmetric quantizer raises ValueError for 1-D per-axis requests)"),
+        ])
     # ---- group
     mi_g, g = repo.func("group")
     b, gax, ggs = positional_params(g)[:3]
